@@ -1,6 +1,8 @@
 package main
 
 import (
+	"time"
+
 	v1 "github.com/keep94/sqroot"
 	v2 "github.com/keep94/sqroot/v2"
 	v3 "github.com/keep94/sqroot/v3"
@@ -320,6 +322,101 @@ func genC09(tier string, r *Rng, emit func(Case)) {
 	}
 }
 
+// C15: infinite counted sources with the pattern planted at chosen positions in an otherwise match-free stream.
+func genC15(tier string, r *Rng, emit func(Case)) {
+	caseBudget = 4 * time.Second
+	n := 150
+	if tier == "thorough" {
+		n = 2500
+	}
+	plantsAt := []int{0, 1, 50, 98, 99, 100, 101, 102, 199, 200, 201, 650, 1200, 2300, 5150}
+	for i := 0; i < n; i++ {
+		ver := allVers[i%3]
+		m := r.Range(1, 5)
+		pat := make([]int, m)
+		for k := range pat {
+			pat[k] = 7 + r.Intn(3) // digits 7..9 only occur inside plants
+		}
+		np := r.Range(1, 3)
+		var plants []int
+		at := plantsAt[r.Intn(len(plantsAt))]
+		for len(plants) < np {
+			plants = append(plants, at)
+			at += m + r.Pick([]int{0, 1, 2, 50, 99, 100, 300})
+		}
+		end := plants[len(plants)-1] + m
+		raw := make([]int, end+r.Intn(30))
+		for k := range raw {
+			raw[k] = 1 + r.Intn(5)
+		}
+		for _, p := range plants {
+			copy(raw[p:], pat)
+		}
+		if raw[0] == 0 {
+			raw[0] = 1
+		}
+		rep := []int{1 + r.Intn(5), 1 + r.Intn(5), 1 + r.Intn(5)}
+		ws := -1
+		if r.Intn(3) == 0 {
+			ws = r.Pick([]int{0, 1, plants[0], plants[0] + 1, plants[len(plants)-1], 100})
+		}
+		// how many planted matches are visible from ws
+		vis := 0
+		for _, p := range plants {
+			if ws < 0 || p >= ws {
+				vis++
+			}
+		}
+		fn := r.Pick([]int{0, 1, 5, 7, 9})
+		cnt := r.Pick([]int{-1, 0, 1, 2, 3})
+		switch fn {
+		case 0:
+			if vis == 0 {
+				continue
+			}
+		case 1, 7, 9:
+			if cnt > vis {
+				cnt = vis
+			}
+			if (fn == 7 || fn == 9) && cnt < 0 {
+				cnt = vis
+			}
+			if fn != 1 && cnt == 0 && vis > 0 {
+				cnt = 1
+			}
+		case 5:
+			if cnt < 1 {
+				cnt = 1
+			}
+			if cnt > vis {
+				cnt = vis
+			}
+			if cnt == 0 {
+				continue
+			}
+		}
+		var t toks
+		t.s("G")
+		t.ints(raw)
+		t.ints(rep)
+		t.i(1)
+		t.i(ws)
+		t.i(-1)
+		t.ints(pat)
+		t.i(fn)
+		t.i(cnt)
+		emit(Case{Ver: ver, Op: "Find", Args: t})
+	}
+	// finite sequences: every entry point terminates (compared with the specification as in C09)
+	for i := 0; i < n; i++ {
+		ver := allVers[i%3]
+		if t, ok := genFindCase(r, ver, "G"); ok {
+			emit(Case{Ver: ver, Op: "Find", Args: t})
+		}
+	}
+}
+
 func init() {
 	register("C09", genC09, map[string]runner{"Find": runFind})
+	register("C15", genC15, map[string]runner{"Find": runFind})
 }
